@@ -117,6 +117,38 @@ def compute_violations(groups, multi):
     return [x for i, x in enumerate(out) if x not in out[i + 1:]]
 
 
+def topo_ranks(n: int, edges: list) -> tuple[list, list]:
+    """rank = length of the longest path ending in the node; ([0]*n, cycle) if the graph has a cycle"""
+    succ = {i: [] for i in range(n)}
+    indeg = [0] * n
+    for a, b in edges:
+        if a == b:
+            return [0] * n, [a, a]
+        succ[a].append(b)
+        indeg[b] += 1
+    rank = [0] * n
+    todo = [i for i in range(n) if indeg[i] == 0]
+    seen = 0
+    while todo:
+        i = todo.pop()
+        seen += 1
+        for j in succ[i]:
+            rank[j] = max(rank[j], rank[i] + 1)
+            indeg[j] -= 1
+            if indeg[j] == 0:
+                todo.append(j)
+    if seen < n:
+        # recover one cycle among the remaining nodes
+        rem = {i for i in range(n) if indeg[i] > 0}
+        cur = next(iter(rem))
+        path = []
+        while cur not in path:
+            path.append(cur)
+            cur = next(j for j in succ[cur] if j in rem)
+        return [0] * n, path[path.index(cur):] + [cur]
+    return rank, []
+
+
 def extract():
     gaps: list[str] = []
     prog = X.build_program(min(NPROC, 4))
@@ -126,7 +158,9 @@ def extract():
     rows = {rk: v for rk, v in tab.rows.items() if in_scope(rk[1])}
     gaps += tab.gaps + X.reference_member_gaps(prog) + sorted(set(prog.gaps))
     fields = sorted({rk[1] for rk in rows})
+    # locks that protect a tabled access, then locks that only take part in the acquisition order
     locks = sorted({l for rk in rows for l in rk[3]})
+    locks += sorted({x for e in tab.lock_edges for x in e} - set(locks))
     fi = {f: i for i, f in enumerate(fields)}
     li = {l: i for i, l in enumerate(locks)}
     ri = {r: i for i, r in enumerate(ROLE_ORDER)}
@@ -153,6 +187,13 @@ def extract():
     body += "/-- the checker's result as computed by the extractor; `EphVerif.C36.table_violations` makes the kernel confirm it -/\n"
     body += "def expectedViolations : List (Nat × Nat × Nat) := [\n  " + ",\n  ".join(
         f"({a}, {b}, {c})" for a, b, c in viols) + "]\n"
+    # lock-order graph: edge h -> l when some role acquires l while holding h; ranks = a topological numbering
+    edges = {(li[h], li[l]): v for (h, l), v in tab.lock_edges.items()}
+    ranks, cycle = topo_ranks(len(locks), sorted(edges))
+    body += "/-- lock-order edges (held, acquired) and a rank certificate (topological numbering; all 0 if there is a cycle) -/\n"
+    body += "def lockEdges : List (Nat × Nat) := [" + ", ".join("(%d, %d)" % e for e in sorted(edges)) + "]\n"
+    body += "def lockRanks : List Nat := [" + ", ".join(map(str, ranks)) + "]\n"
+    _STATE.update(lock_edges={(locks[a], locks[b]): v for (a, b), v in edges.items()}, lock_cycle=[locks[i] for i in cycle])
     write_generated(PID, body)
     _STATE.update(prog=prog, tab=tab, rows=rows, fields=fields, locks=locks, groups=G, multi=multi, viols=viols,
                   site_locs=all_site_locs, gaps=gaps)
@@ -436,6 +477,20 @@ def run(tier, seed, replay=None):
             ctx.known_hits.setdefault(sig, known[sig].get("what", sig))
         else:
             new_pairs.append((fields[f], ROLE_ORDER[a], ROLE_ORDER[b], sig))
+    # lock order: a cycle in "l2 acquired while l1 held" is a potential deadlock
+    ctx.coverage["lock_order_edges"] = sorted(f"{short(a)} -> {short(b)}" for a, b in st["lock_edges"])
+    ctx.coverage["lock_order_acyclic"] = not st["lock_cycle"]
+    if st["lock_cycle"]:
+        cyc = st["lock_cycle"]
+        sig = "lock-order-cycle:" + ">".join(short(l) for l in cyc)
+        sites = {f"{short(a)} -> {short(b)}": st["lock_edges"].get((a, b), []) for a, b in zip(cyc, cyc[1:])}
+        if sig in known:
+            ctx.known_hits.setdefault(sig, known[sig].get("what", sig))
+        else:
+            ctx.report(sig, "broken-obligation",
+                       {"monitor": "the lock-order graph extracted from the sources has a cycle: threads nesting these locks in "
+                                   "opposite orders can deadlock (EphVerif.C36.table_lock_order does not hold)",
+                        "theorem": "EphVerif.C36.table_lock_order", "edges": sites}, found_input=False)
     stale = sorted(s for s in known if s not in {signature(fields[f], ROLE_ORDER[a], ROLE_ORDER[b]) for f, a, b in viols})
     if stale:
         ctx.notes.append("listed known findings no longer produced by the table (fixed or renamed; nothing reported): " + ", ".join(stale))
